@@ -53,11 +53,11 @@ open Driver.Thrift in
 def leaksAt (d : Doc) (n : String) (p : Proto) (bs : Bytes) : Bool :=
   let r : OutL Unit := match p with
     | .bin | .ubin => match decodeL (binRd .be (some skipDepth)) d true n bs with
-      | .ok _ => .ok () | .err l => .err l | .panic => .panic | .fuel => .fuel
+      | .ok _ _ => .ok () | .err l => .err l | .panic => .panic | .fuel => .fuel
     | .le => match decodeL (binRd .le (some skipDepth)) d true n bs with
-      | .ok _ => .ok () | .err l => .err l | .panic => .panic | .fuel => .fuel
+      | .ok _ _ => .ok () | .err l => .err l | .panic => .panic | .fuel => .fuel
     | .cmp => match decodeL cmpRd d true n (({} : Compact.CR), bs) with
-      | .ok _ => .ok () | .err l => .err l | .panic => .panic | .fuel => .fuel
+      | .ok _ _ => .ok () | .err l => .err l | .panic => .panic | .fuel => .fuel
   match r with
   | .err l => l > 0
   | _ => false
